@@ -309,7 +309,7 @@ impl Prop for C04 {
         Some("tape")
     }
     fn rule(&self) -> String {
-        "generated transition systems x unrolling depth 0-5 x entry point (init_at(0) + unrolls; init_at(s>0) + unrolls as PDR does), driven through the public UnrollSmtEncoding / TransitionSystemEncoding API (in 22% of the cases on an encoder object that has already served an earlier, overlapping init_at + unrolling into another solver) with an in-process recording SolverContext (text from the real serialize_cmd). (a) strict script check by the independent SMT-LIB front end: every symbol declared or defined exactly once before use, every term well-sorted; (b) faithfulness: a concrete execution from the reference simulator (random free initial values, inputs, next-less states; arbitrary state at the entry step when s>0) is bound to exactly the declare-const symbols, every define-fun is evaluated, and for every state, input, constraint and bad state e and every step j the symbol returned by get_signal_at(e, j) must have the value of e at step j (4 executions per script). Non-trivial: system in which a non-leaf signal is used by two of {init, next, other} and depth >= 1; distinct by hash of the script.".into()
+        "generated transition systems x unrolling depth 0-5 x entry point (init_at(0) + unrolls; init_at(s>0) + unrolls as PDR does), driven through the public UnrollSmtEncoding / TransitionSystemEncoding API (in 22% of the cases on an encoder object that has already served an earlier, overlapping init_at + unrolling into another solver) with an in-process recording SolverContext (text from the real serialize_cmd). (a) strict script check by the independent SMT-LIB front end: every symbol declared or defined exactly once before use, every term well-sorted; (b) faithfulness: a concrete execution from the reference simulator (random free initial values, inputs, next-less states; arbitrary state at the entry step when s>0) is bound to exactly the declare-const symbols, every define-fun is evaluated, and for every state, input, constraint and bad state (and, when the encoder is created with include_outputs, every output) e and every step j the symbol returned by get_signal_at(e, j) must have the value of e at step j (4 executions per script). Non-trivial: system in which a non-leaf signal is used by two of {init, next, other} and depth >= 1; distinct by hash of the script.".into()
     }
     fn budget(&self, tier: Tier) -> Budget {
         match tier {
@@ -332,8 +332,10 @@ impl Prop for C04 {
         // history on one encoder object: sometimes the encoder has already served an earlier
         // (overlapping) unrolling into another solver before the recorded one; init_at re-initialises it
         let reuse: Option<(u64, u64)> = if t.chance(56) { Some((t.below(3) as u64, t.below(4) as u64)) } else { None };
+        // the encoder can also be asked to define the outputs as signals
+        let include_outputs = t.chance(64);
         let enc = guard(|| {
-            let mut enc = UnrollSmtEncoding::new(ctx, &sys, false);
+            let mut enc = UnrollSmtEncoding::new(ctx, &sys, include_outputs);
             if let Some((start0, depth0)) = reuse {
                 let mut scratch = Recorder2::default();
                 enc.define_header(&mut scratch).unwrap();
@@ -392,6 +394,15 @@ impl Prop for C04 {
         }
         for b in sys.bad_states.iter() {
             signals.push(("bad".into(), *b));
+        }
+        if include_outputs {
+            rec.label("outputs-included");
+            for o in sys.outputs.iter() {
+                // a literal has no per-step symbol (get_signal_at only passes true/false through)
+                if !ctx[o.expr].is_bv_lit() {
+                    signals.push(("output".into(), o.expr));
+                }
+            }
         }
         let ask_real_solvers = !rec.frozen && hash_bytes(tape) % 300 == 5 && crate::second::available();
         for round in 0..4 {
